@@ -16,6 +16,15 @@ CHECKS = {
              "construction) over all elements x states x forms and by the translator regenerating the tables.",
         ref="§4 C09", technique="Lean 4 proof (structural induction on strings) + translator + exhaustive correspondence",
         note=NOTE + "Model exact for ASCII; CPython str methods trusted."),
+    "C10": dict(
+        text="Totality theorems (parse_nuclide_str: name or NuclideStrError; parse_id: name or ValueError; parse_nuclide: "
+             "member / ValueError / TypeError only for foreign key types), accept_sound (an accepted string literally "
+             "contains element, mass number and state), and constructor/remove decision theorems (only documented "
+             "exception classes; acceptance implies valid amounts, unit, membership, no duplicate nuclide) proved for "
+             "all strings, integers and argument lists; tied to the code by exhaustive short-string enumeration, id "
+             "strata and an entry-point matrix compared with the model and judged by the property's own oracle.",
+        ref="§4 C10", technique="Lean 4 proof (case analysis of an executable model with Python's exception classes) + exhaustive/seeded correspondence",
+        note=NOTE + "Amount/unit/key classes are abstracted by the harness (classification trusted); non-ASCII strings judged by the oracle only; bool/complex/Decimal amounts not judged."),
 }
 
 PENDING = {}
